@@ -11,7 +11,7 @@ hierarchy:= {"templates": [template...] (all of them go into the DictLoader), "c
 from __future__ import annotations
 
 BLOCK_IDS = {f"b{i}": i for i in range(1, 10)}
-VAR_IDS = {"i": 101, "k": 102, "x": 111, "y": 112}
+VAR_IDS = {"i": 101, "k": 102, "loop.index": 103, "x": 111, "y": 112}
 TEXT_ALPHABET = "abcdefgXYZ0123456789[]()<>.,:;-_=+ "
 
 
@@ -24,27 +24,30 @@ def dec_str(s):
 
 
 # ---------------------------------------------------------------- printing as Jinja source
-def src_items(items, blocks, out):
+def src_items(items, blocks, out, wraps=None):
     for it in items:
         k = it[0]
         if k == "s":
             out.append(it[1])
         elif k == "v":
-            out.append("{{ %s }}" % it[1])
+            out.append("{{ loop.index if loop is defined else '' }}" if it[1] == "loop.index" else "{{ %s }}" % it[1])
         elif k == "e":
             out.append(stmt_src(it[1], it[2]))
         elif k == "b":
             scoped, required, body = blocks[it[1]]
+            wrap = (wraps or {}).get(it[1])
+            out.append({"if": "{% if 1 %}", "with": "{% with zw = 1 %}", "ifwith": "{% if 1 %}{% with zw = 1 %}"}.get(wrap, ""))
             out.append("{%% block %s%s%s %%}" % (it[1], " scoped" if scoped else "", " required" if required else ""))
-            src_items(body, blocks, out)
+            src_items(body, blocks, out, wraps)
             out.append("{% endblock %}")
+            out.append({"if": "{% endif %}", "with": "{% endwith %}", "ifwith": "{% endwith %}{% endif %}"}.get(wrap, ""))
         elif k == "u":
             out.append("{{ super" + ".super" * it[1] + "() }}")
         elif k == "f":
             out.append("{{ self.%s() }}" % it[1])
         elif k == "l":
             out.append("{%% for %s in [%s] %%}" % (it[1], ", ".join(repr(v) for v in it[2])))
-            src_items(it[3], blocks, out)
+            src_items(it[3], blocks, out, wraps)
             out.append("{% endfor %}")
         else:
             raise AssertionError(it)
@@ -102,7 +105,7 @@ def source(t, index):
     nx = 0
     for top in t["tops"]:
         if top[0] == "i":
-            src_items([top[1]], t["blocks"], out)
+            src_items([top[1]], t["blocks"], out, t.get("wraps"))
         else:
             _, cond, target, style = top
             nx += 1
@@ -163,7 +166,9 @@ def enc_item(it, out):
     elif k == "f":
         out += ["f", str(BLOCK_IDS[it[1]])]
     elif k == "l":
-        out += ["l", str(VAR_IDS[it[1]]), str(len(it[2]))] + [enc_str(v) for v in it[2]]
+        out += ["l", str(len(it[2]))]
+        for idx, v in enumerate(it[2]):
+            out += ["2", str(VAR_IDS[it[1]]), enc_str(v), str(VAR_IDS["loop.index"]), enc_str(str(idx + 1))]
         enc_items(it[3], out)
 
 
@@ -327,7 +332,7 @@ class HGen:
             elif k < 0.30:
                 items.append(self.stmt())
             elif k < 0.40:
-                items.append(("v", r.choice(["i", "k", "x", "y"])))
+                items.append(("v", r.choice(["i", "k", "x", "y", "loop.index", "loop.index"])))
             elif k < 0.62:
                 items.append(("u", r.choice([0, 0, 0, 0, 1, 1, 2])))
             elif k < 0.72:
@@ -352,6 +357,9 @@ class HGen:
         else:
             body = [("s", b[1:] + "abcdef"[lvl % 6])] + self.body(t, names, pending, nest, False, lvl)
         t["blocks"][b] = (scoped, required, body)
+        if r.random() < 0.3:
+            # the site sits one or two statements deep (if / with) instead of directly in the enclosing body
+            t.setdefault("wraps", {})[b] = r.choice(["if", "with", "ifwith"])
         return ("b", b)
 
     def template(self, name, lvl, names, parent, is_last):
